@@ -7,6 +7,8 @@ import (
 	"errors"
 	"fmt"
 	"io"
+
+	"github.com/zeromicro/go-zero/core/breaker"
 	"strings"
 	"sync"
 
@@ -383,7 +385,7 @@ func (c *sqlConn) stmtErr(cr *callRec, x *sqlObs) error {
 	case outErr:
 		switch c.b.l.sqlKind(p) {
 		case sfGeneric:
-			x.want = fmt.Errorf("simsql: connection lost while executing the statement of call %d", cr.id)
+			x.want = sqlFailure(cr, fmt.Sprintf("simsql: connection lost while executing the statement of call %d", cr.id))
 		case sfBadConn:
 			x.want = driver.ErrBadConn
 		case sfDeadline:
@@ -397,11 +399,11 @@ func (c *sqlConn) stmtErr(cr *callRec, x *sqlObs) error {
 			if cr.cancel != nil {
 				cr.cancel()
 			}
-			x.want = context.Canceled
+			x.want = sqlWrapped(cr, context.Canceled)
 		case saDupKey:
-			x.want = &dupKeyErr{id: cr.id}
+			x.want = sqlWrapped(cr, &dupKeyErr{id: cr.id})
 		case saExecNoRows:
-			x.want = sql.ErrNoRows
+			x.want = sqlWrapped(cr, sql.ErrNoRows)
 		}
 	}
 	return x.want
@@ -602,31 +604,66 @@ func (l *layer2) sqlCall(id *ident, c *callRec, ctx context.Context, cancel func
 			case outErr:
 				switch kind {
 				case sfGeneric:
-					x.want = fmt.Errorf("business rule violated in the transaction of call %d", c.id)
+					x.want = sqlFailure(c, fmt.Sprintf("business rule violated in the transaction of call %d", c.id))
 					return x.want
 				case sfBodyPanics:
 					x.wantText = "recover from"
-					panic(c.panicVal)
+					c.raise()
 				}
 			case outAccErr:
 				switch kind {
 				case saTxDone:
-					x.want = sql.ErrTxDone
+					x.want = sqlWrapped(c, sql.ErrTxDone)
 				case saNoRows:
 					x.want = fmt.Errorf("lookup in the transaction of call %d: %w", c.id, sql.ErrNoRows)
 				case saCanceled:
 					if cancel != nil {
 						cancel()
 					}
-					x.want = context.Canceled
+					x.want = sqlWrapped(c, context.Canceled)
 				case saDupKey:
-					x.want = &dupKeyErr{id: c.id}
+					x.want = sqlWrapped(c, &dupKeyErr{id: c.id})
 				}
 				return x.want
 			}
 			return nil
 		})
 	}
+}
+
+// sqlFailure: the identity of a plain failure (driver error of a statement, business error of a
+// transaction body) by plan.kind.  None of them is accepted by sqlx' documented predicate (nil,
+// sql.ErrNoRows, sql.ErrTxDone, context.Canceled - errors.Is -, a failed scan, WithAcceptable):
+// the breaker's own rejection error out of a nested breaker, look-alikes of the accepted
+// sentinels, io.EOF, wrapped deadline.
+func sqlFailure(c *callRec, text string) error {
+	switch c.p.kind {
+	case 1:
+		return io.EOF
+	case 2:
+		return breaker.ErrServiceUnavailable
+	case 3:
+		return fmt.Errorf("%s: %w", text, breaker.ErrServiceUnavailable)
+	case 4:
+		return errors.New(sql.ErrNoRows.Error()) // same text, another error
+	case 5:
+		return errors.New(context.Canceled.Error())
+	case 6:
+		return codeErr{id: c.id, code: 1205}
+	case 7:
+		return fmt.Errorf("%s: %w", text, context.DeadlineExceeded)
+	case 8:
+		return errors.New(breaker.ErrServiceUnavailable.Error())
+	}
+	return errors.New(text)
+}
+
+// sqlWrapped: an accepted error, bare or (plan.kind 1, 4, 7, 10) at the end of a %w chain.
+func sqlWrapped(c *callRec, err error) error {
+	if c.p.kind%3 == 1 {
+		return fmt.Errorf("statement of call %d: %w", c.id, err)
+	}
+	return err
 }
 
 func sqlPassThrough(c *callRec) (bool, string) {
@@ -702,6 +739,13 @@ func (l *layer2) sqlInferRequest(id *ident, c *callRec) {
 	}
 	c.reqStart, c.reqEnd = st, st
 	l.r.Probe("sql-connect-error-shared-with-a-concurrent-call")
+}
+
+// sqlEndedUnavailable: the request itself ended with (a wrapper of) the breaker's rejection
+// error, e.g. out of a nested breaker: the caller seeing it is then no sign of a rejection.
+func sqlEndedUnavailable(c *callRec) bool {
+	x := c.x.(*sqlObs)
+	return x.want != nil && errors.Is(x.want, breaker.ErrServiceUnavailable)
 }
 
 func sqlRecordedAs(c *callRec) evKind {
